@@ -177,6 +177,13 @@ def run_case(case):
             rep.violation("measure", label, "normal", "mismatch", case, "normal %s, expected %s" % (np.asarray(obj.normal).tolist(), nvec.tolist()))
 
     run_on(Polygon, F, "Polygon", want)
+    if "pl2" in case:
+        # input forms: a polygon in z = 0 may be given as (N,2) vertices, as nested lists, and (when the coordinates are
+        # whole numbers) as an integer array - the measures are those of the same polygon
+        run_on(Polygon, F[:, :2], "Polygon[(N,2) vertices]", want)
+        if np.all(F == np.round(F)) and np.max(np.abs(F)) < 2**31:
+            run_on(lambda v, **kw: Polygon(v.astype(np.int64), **kw), F, "Polygon[int64 vertices]", want)
+            run_on(lambda v, **kw: Polygon([[int(x) for x in r] for r in v[:, :2]], **kw), F, "Polygon[nested lists of int]", want)
     if X.is_convex_ccw(ccw):
         # ConvexPolygon orders the vertices counter-clockwise about the normal whatever the input order
         wc = dict(want)
